@@ -561,6 +561,32 @@ func runLinkHistory(r *ev.Run) {
 		}
 		w.ts.Close()
 	}
+	// an agent moves UP its own chain: A <- C <- D, then A itself reports the link to D.
+	// D is now one hop behind A; tasks for D are wrapped once, for D.
+	for _, ids := range [][]uint32{{0xa1, 0xb2, 0xc3, 0xd4}, {0x80000001, 0x7fffffff, 0xdeadbeef, 0xffffffff}} {
+		w, err := build(ids, []int{-1, -1, 0, 2})
+		if err != nil {
+			r.Violate("history/build", err.Error(), map[string]any{"ids": fmt.Sprintf("%08x", ids)})
+			w.ts.Close()
+			continue
+		}
+		k, iv := w.key(3)
+		inner := demonwire.Register(ids[3], k, iv, demonwire.DefaultMeta(ids[3]))
+		b := &demonwire.W{}
+		b.I32(agent.DEMON_PIVOT_SMB_CONNECT).I32(1).Bytes(inner)
+		if res := w.send(0, demonwire.Sub{Cmd: agent.COMMAND_PIVOT, Body: b.B}); res.Panic != nil {
+			r.Violate("history/panic/reconnect-up-the-chain", fmt.Sprint(res.Panic), nil)
+		}
+		if d := w.ts.Agent(ids[3]); d == nil || d.Pivots.Parent == nil || d.Pivots.Parent.NameID != fmt.Sprintf("%08x", ids[0]) {
+			r.Violate("history/reconnect-not-applied", "A's connect naming D (two hops below A until then) did not move D directly below A", map[string]any{"ids": fmt.Sprintf("%08x", ids)})
+			w.ts.Close()
+			continue
+		}
+		w.nodes[3].parent = 0
+		w.ts.CheckIn(ids[0], w.nodes[0].k)
+		checkDown(r, w, "history: after D moved up its own chain, directly below A")
+		w.ts.Close()
+	}
 }
 
 func Run(r *ev.Run) {
